@@ -10,7 +10,9 @@ package multiplex
 import (
 	"fmt"
 	"io"
+	"runtime"
 	"sync"
+	"sync/atomic"
 	"testing"
 	"time"
 
@@ -113,4 +115,136 @@ func TestVerifMuxRecvCloseRace(t *testing.T) {
 		}
 	}
 	res.Stat("rounds", int64(done))
+}
+
+// TestVerifMuxCloseVsCloseRace: a local Stream.Close and the peer's closing frame of the SAME stream processed at the
+// same instant (Mux.tla: CloseStream and the passive close are each one step deciding on the stream's closed flag;
+// exactly one of them wins). Real goroutines behind a spin barrier, no bubble. After every round, at rest: the active
+// stream counter equals the number of open streams in the table (CountInv), and - the property-level consequence -
+// a session that still has an open, healthy stream must survive several inactivity periods (StaysUp): a counter that
+// reached zero too early lets the inactivity timer close the session under the stream that is in use.
+func TestVerifMuxCloseVsCloseRace(t *testing.T) {
+	log.SetOutput(io.Discard)
+	log.SetLevel(log.PanicLevel)
+	res := kit.NewResult()
+	defer func() { res.Save(true) }()
+	workers := 6
+	// the window is a few instructions wide (about one hit per thousand rounds when the flag is decided non-atomically):
+	// run a fixed number of rounds, bounded by a generous wall budget on a loaded machine
+	target, budget := 10000, 45*time.Second
+	if kit.Thorough() {
+		target, budget = 150000, 300*time.Second
+	}
+	const idle = 150 * time.Millisecond
+	deadline := time.Now().Add(budget)
+	var wg sync.WaitGroup
+	var mu sync.Mutex
+	rounds, bad := 0, 0
+	for wk := 0; wk < workers; wk++ {
+		wg.Add(1)
+		go func(wk int) {
+			defer wg.Done()
+			rng := kit.NewRng(kit.Seed()*1000 + int64(wk))
+			for time.Now().Before(deadline) {
+				mu.Lock()
+				stop := bad > 2 || rounds >= target
+				mu.Unlock()
+				if stop {
+					return
+				}
+				var key [32]byte
+				o, _ := MakeObfuscator(EncryptionMethodPlain, key)
+				sesh := MakeSession(uint32(wk), SessionConfig{Obfuscator: o, MsgOnWireSizeLimit: 16401, InactivityTimeout: idle})
+				link := kit.NewVNet().NewLink(false, true)
+				sesh.AddConnection(link.End(0))
+				go func() {
+					b := make([]byte, 20480)
+					for {
+						if _, err := link.End(1).Read(b); err != nil {
+							return
+						}
+					}
+				}()
+				mk := func(f *Frame) []byte {
+					buf := make([]byte, 600)
+					n, _ := sesh.obfuscate(f, buf, 0)
+					return buf[:n]
+				}
+				// the stream that stays in use for the whole life of this session
+				keep, err := sesh.OpenStream()
+				if err != nil {
+					link.Fail()
+					continue
+				}
+				n := 40
+				for i := 0; i < n; i++ {
+					st, err := sesh.OpenStream()
+					if err != nil {
+						break
+					}
+					closing := mk(&Frame{StreamID: st.id, Seq: 0, Closing: closingStream, Payload: []byte{7}})
+					var start uint32
+					var done sync.WaitGroup
+					done.Add(2)
+					spinA, spinB := rng.Intn(300), rng.Intn(300)
+					go func() {
+						defer done.Done()
+						for atomic.LoadUint32(&start) == 0 {
+						}
+						for k := 0; k < spinA; k++ {
+							_ = atomic.LoadUint32(&start)
+						}
+						st.Close()
+					}()
+					go func() {
+						defer done.Done()
+						for atomic.LoadUint32(&start) == 0 {
+						}
+						for k := 0; k < spinB; k++ {
+							_ = atomic.LoadUint32(&start)
+						}
+						sesh.recvDataFromRemote(closing)
+					}()
+					runtime.Gosched()
+					atomic.StoreUint32(&start, 1)
+					done.Wait()
+				}
+				// at rest: counter vs table
+				sesh.streamsM.Lock()
+				open := 0
+				for _, st := range sesh.streams {
+					if st != nil && !st.isClosed() {
+						open++
+					}
+				}
+				cnt := int(int32(sesh.streamCount()))
+				sesh.streamsM.Unlock()
+				mu.Lock()
+				rounds += n
+				mu.Unlock()
+				res.Count(fmt.Sprintf("w%d", wk), true)
+				if cnt != open && !sesh.IsClosed() {
+					mu.Lock()
+					bad++
+					mu.Unlock()
+					res.Violate("count-mismatch", fmt.Sprintf("after %d rounds of a local Close racing the peer's closing frame of the same stream the session counts %d active streams while %d are open", n, cnt, open),
+						map[string]any{"worker": wk, "count": cnt, "open": open})
+				}
+				// the kept stream is open and its connection healthy: the session must outlive the inactivity period
+				time.Sleep(3 * idle)
+				if sesh.IsClosed() && sesh.TerminalMsg() == "timeout" {
+					mu.Lock()
+					bad++
+					mu.Unlock()
+					res.Violate("session-died", fmt.Sprintf("a session with an open, healthy stream was closed by its inactivity timer (terminal message %q) after streams had been closed by both ends at once: the active-stream counter had reached zero with a stream in use", sesh.TerminalMsg()),
+						map[string]any{"worker": wk, "count": cnt, "open": open})
+				}
+				keep.Close()
+				sesh.Close()
+				link.Fail()
+			}
+		}(wk)
+	}
+	wg.Wait()
+	res.Stat("rounds", int64(rounds))
 }
